@@ -8,12 +8,28 @@ Local Open Scope string_scope.
 
 Definition nat_str (n : nat) : string := dec_of_Z (Z.of_nat n).
 
-Definition ty_str (t : ty) : string :=
+(* rendering style, drawn per seed:
+     st_qual : literals as `(5@MachineInteger)` (true) or through a typed identity function
+               declared in the header, `mi(5)` / `bi(5)` (false)
+     st_mac  : the integer type names are written through the macros
+               `MI ==> MachineInteger; BI ==> Integer;` (langmacs.tex:25-26)               *)
+Record style : Type := mkStyle { st_qual : bool; st_mac : bool }.
+
+Definition bty_str (q : style) (b : bty) : string :=
+  match b with
+  | BMI => if st_mac q then "MI" else "MachineInteger"
+  | BInt => if st_mac q then "BI" else "Integer"
+  | BBool => "Boolean"
+  | BStr => "String"
+  end.
+
+Definition ty_str (q : style) (t : ty) : string :=
   match t with
-  | TMI => "MachineInteger"
-  | TInt => "Integer"
+  | TMI => bty_str q BMI
+  | TInt => bty_str q BInt
   | TBool => "Boolean"
   | TStr => "String"
+  | TList b => "List(" ++ bty_str q b ++ ")"
   end.
 
 (* string literals: underscore-quote stands for a quote, underscore-underscore for an
@@ -30,9 +46,13 @@ Fixpoint esc_str (s : string) : string :=
 
 Definition quote : string := String (ascii_of_nat 34) EmptyString.
 
-Definition lit_str (l : lit) : string :=
+(* q = true: qualified literal `(5@MachineInteger)` (langfuns/langtype: `E @ T`);
+   q = false: the literal is the argument of a typed identity function declared in the
+   header, `mi(5)` / `bi(5)`, so its type comes from the parameter type              *)
+Definition lit_str (q : style) (l : lit) : string :=
   match l with
-  | LNum n z => "(" ++ dec_of_Z z ++ "@" ++ ty_str (ty_of_nty n) ++ ")"
+  | LNum n z => if st_qual q then "(" ++ dec_of_Z z ++ "@" ++ ty_str q (ty_of_nty n) ++ ")"
+                else (match n with NMI => "mi(" | NInt => "bi(" end) ++ dec_of_Z z ++ ")"
   | LBool true => "true"
   | LBool false => "false"
   | LStr s => quote ++ esc_str s ++ quote
@@ -50,7 +70,7 @@ Fixpoint sep_by (sep : string) (l : list string) : string :=
 
 Definition bin (a op b : string) : string := "(" ++ a ++ " " ++ op ++ " " ++ b ++ ")".
 
-Definition prim_str (p : prim) (a : list string) : string :=
+Definition prim_str (q : style) (p : prim) (a : list string) : string :=
   match p, a with
   | (PAdd _ | PCat), [x; y] => bin x "+" y
   | PSub _, [x; y] => bin x "-" y
@@ -62,18 +82,24 @@ Definition prim_str (p : prim) (a : list string) : string :=
   | PAbs _, [x] => "abs(" ++ x ++ ")"
   | PMin _, [x; y] => "min(" ++ x ++ ", " ++ y ++ ")"
   | PMax _, [x; y] => "max(" ++ x ++ ", " ++ y ++ ")"
-  | (PEq _ | PBEq | PSEq), [x; y] => bin x "=" y
-  | (PNe _ | PBNe | PSNe), [x; y] => bin x "~=" y
+  | (PEq _ | PBEq | PSEq | PLEq _), [x; y] => bin x "=" y
+  | (PNe _ | PBNe | PSNe | PLNe _), [x; y] => bin x "~=" y
   | PLt _, [x; y] => bin x "<" y
   | PLe _, [x; y] => bin x "<=" y
   | PGt _, [x; y] => bin x ">" y
   | PGe _, [x; y] => bin x ">=" y
-  | PToInt, [x] => "(" ++ x ++ "::Integer)"
+  | PToInt, [x] => "(" ++ x ++ "::" ++ ty_str q TInt ++ ")"
   | PToMI, [x] => "machine(" ++ x ++ ")"
   | PNot, [x] => "(~ " ++ x ++ ")"
   | PBAnd, [x; y] => bin x "/\" y
   | PBOr, [x; y] => bin x "\/" y
-  | PLen, [x] => "(# " ++ x ++ ")"
+  | (PLen | PLLen _), [x] => "(# " ++ x ++ ")"
+  | PLCons _, [x; y] => "cons(" ++ x ++ ", " ++ y ++ ")"
+  | PLFirst _, [x] => "first(" ++ x ++ ")"
+  | PLRest _, [x] => "rest(" ++ x ++ ")"
+  | PLEmptyQ _, [x] => "empty?(" ++ x ++ ")"
+  | PLRev _, [x] => "reverse(" ++ x ++ ")"
+  | PLNth _, [x; y] => "(" ++ x ++ ".(" ++ y ++ "))"
   | _, _ => "?prim(" ++ sep_by ", " a ++ ")"
   end.
 
@@ -82,6 +108,7 @@ Definition loc_str (np k : nat) : string :=
   if Nat.ltb k np then "p" ++ nat_str k else "l" ++ nat_str k.
 
 Definition glob_str (k : nat) : string := "g" ++ nat_str k.
+Definition exn_str (k : nat) : string := "Ex" ++ nat_str k.
 Definition fun_str (n : nat) : string := "f" ++ nat_str n.
 
 (* statements as full lines: indentation, text, `;`, newline *)
@@ -89,44 +116,71 @@ Definition lines (f : stmt -> string) (i : nat) (ss : list stmt) : string :=
   String.concat "" (map (fun s => ind i ++ f s ++ ";" ++ nl) ss).
 
 (* np: number of parameters; d: current frame depth (next loop variable); i: indentation *)
-Fixpoint pe (np d i : nat) (e : expr) {struct e} : string :=
+Fixpoint pe (q : style) (np d i : nat) (e : expr) {struct e} : string :=
   match e with
-  | ELit l => lit_str l
+  | ELit l => lit_str q l
   | EGlob k => glob_str k
   | ELoc k => loc_str np k
-  | EPrim p args => prim_str p (map (pe np d i) args)
-  | ECall n args => fun_str n ++ "(" ++ sep_by ", " (map (pe np d i) args) ++ ")"
-  | EIf c a b => "(if " ++ pe np d i c ++ " then " ++ pe np d i a ++ " else " ++ pe np d i b ++ ")"
-  | EAnd a b => bin (pe np d i a) "and" (pe np d i b)
-  | EOr a b => bin (pe np d i a) "or" (pe np d i b)
+  | EPrim p args => prim_str q p (map (pe q np d i) args)
+  | ECall n args => fun_str n ++ "(" ++ sep_by ", " (map (pe q np d i) args) ++ ")"
+  | EIf c a b => "(if " ++ pe q np d i c ++ " then " ++ pe q np d i a ++ " else " ++ pe q np d i b ++ ")"
+  | EAnd a b => bin (pe q np d i a) "and" (pe q np d i b)
+  | EOr a b => bin (pe q np d i a) "or" (pe q np d i b)
   | ESeq ss e' =>
-      "({" ++ nl ++ lines (ps1 np d (S i)) (S i) ss
-           ++ ind (S i) ++ pe np d (S i) e' ++ nl ++ ind i ++ "})"
+      "({" ++ nl ++ lines (ps1 q false np d (S i)) (S i) ss
+           ++ ind (S i) ++ pe q np d (S i) e' ++ nl ++ ind i ++ "})"
+  | EMac m e' => (match m with MDbl _ => "DBL(" | MSqr _ => "SQR(" end) ++ pe q np d i e' ++ ")"
+  | EListLit b es =>
+      match es with
+      | [] => "(empty@List(" ++ bty_str q b ++ "))"
+      | _ => "([" ++ sep_by ", " (map (pe q np d i) es) ++ "]@List(" ++ bty_str q b ++ "))"
+      end
   end
 (* the statement text without indentation / terminator *)
-with ps1 (np d i : nat) (s : stmt) {struct s} : string :=
+with ps1 (q : style) (tb : bool) (np d i : nat) (s : stmt) {struct s} : string :=
   match s with
-  | SAssG k e => glob_str k ++ " := " ++ pe np d i e
-  | SAssL k e => loc_str np k ++ " := " ++ pe np d i e
-  | SPrint es => "stdout << " ++ String.concat "" (map (fun e => pe np d i e ++ " << ") es) ++ "newline"
+  | SAssG k e => glob_str k ++ " := " ++ pe q np d i e
+  | SAssL k e => loc_str np k ++ " := " ++ pe q np d i e
+  | SPrint es => "stdout << " ++ String.concat "" (map (fun e => pe q np d i e ++ " << ") es) ++ "newline"
   | SIf c a b =>
-      "if " ++ pe np d i c ++ " then {" ++ nl ++ lines (ps1 np d (S i)) (S i) a ++ ind i ++ "}"
+      "if " ++ pe q np d i c ++ " then {" ++ nl ++ lines (ps1 q false np d (S i)) (S i) a ++ ind i ++ "}"
       ++ match b with
          | [] => ""
-         | _ => " else {" ++ nl ++ lines (ps1 np d (S i)) (S i) b ++ ind i ++ "}"
+         | _ => " else {" ++ nl ++ lines (ps1 q false np d (S i)) (S i) b ++ ind i ++ "}"
          end
   | SWhile c body =>
-      "while " ++ pe np d i c ++ " repeat {" ++ nl
-      ++ lines (ps1 np d (S i)) (S i) body ++ ind i ++ "}"
+      "while " ++ pe q np d i c ++ " repeat {" ++ nl
+      ++ lines (ps1 q false np d (S i)) (S i) body ++ ind i ++ "}"
   | SFor lo hi body =>
-      "for " ++ loc_str np d ++ ": MachineInteger in " ++ pe np d i lo ++ ".." ++ pe np d i hi
-      ++ " repeat {" ++ nl ++ lines (ps1 np (S d) (S i)) (S i) body ++ ind i ++ "}"
+      "for " ++ loc_str np d ++ ": " ++ ty_str q TMI ++ " in " ++ pe q np d i lo ++ ".." ++ pe q np d i hi
+      ++ " repeat {" ++ nl ++ lines (ps1 q false np (S d) (S i)) (S i) body ++ ind i ++ "}"
+  | SForIn b l body =>
+      "for " ++ loc_str np d ++ ": " ++ bty_str q b ++ " in " ++ pe q np d i l
+      ++ " repeat {" ++ nl ++ lines (ps1 q false np (S d) (S i)) (S i) body ++ ind i ++ "}"
   | SBreak => "break"
   | SIterate => "iterate"
-  | SReturn e => "return " ++ pe np d i e
-  | SExit c s' => pe np d i c ++ " => " ++ ps1 np d i s'
-  | SExitV c e => pe np d i c ++ " => " ++ pe np d i e
-  | SCall n args => fun_str n ++ "(" ++ sep_by ", " (map (pe np d i) args) ++ ")"
+  | SReturn e => "return " ++ pe q np d i e
+  | SExit c s' =>
+      (* directly inside a try block (a Boolean-valued sequence, see STry) the exit must
+         yield a Boolean too: `c => { s; true }`                                         *)
+      if tb then pe q np d i c ++ " => { " ++ ps1 q false np d i s' ++ "; true }"
+      else pe q np d i c ++ " => " ++ ps1 q false np d i s'
+  | SExitV c e => pe q np d i c ++ " => " ++ pe q np d i e
+  | SCall n args => fun_str n ++ "(" ++ sep_by ", " (map (pe q np d i) args) ++ ")"
+  | SError e => "error " ++ pe q np d i e
+  | SNever => "never"
+  | SThrow k => "throw " ++ exn_str k
+  | STry body hs =>
+      (* "Branches have the type of the protected expression" (langtry.tex:140-142): the
+         protected block and every handler end with the Boolean `true`, whose value the
+         statement context drops                                                          *)
+      "try {" ++ nl ++ lines (ps1 q true np d (S i)) (S i) body ++ ind (S i) ++ "true" ++ nl
+      ++ ind i ++ "} catch E in {" ++ nl
+      ++ String.concat ""
+           (map (fun h => ind (S i) ++ "E has " ++ exn_str (fst h) ++ "Type => {" ++ nl
+                          ++ lines (ps1 q true np d (S (S i))) (S (S i)) (snd h)
+                          ++ ind (S (S i)) ++ "true" ++ nl ++ ind (S i) ++ "};" ++ nl) hs)
+      ++ ind (S i) ++ "true => throw E;" ++ nl ++ ind (S i) ++ "never;" ++ nl ++ ind i ++ "}"
   end.
 
 (* globals assigned anywhere in a function body: they need `free g<k>` (langenvs.tex:836-857) *)
@@ -137,6 +191,8 @@ Fixpoint assg_e (e : expr) : list nat :=
   | EIf c a b => assg_e c ++ assg_e a ++ assg_e b
   | EAnd a b | EOr a b => assg_e a ++ assg_e b
   | ESeq ss e' => flat_map assg_s ss ++ assg_e e'
+  | EMac _ e' => assg_e e'
+  | EListLit _ es => flat_map assg_e es
   end
 with assg_s (s : stmt) : list nat :=
   match s with
@@ -146,9 +202,83 @@ with assg_s (s : stmt) : list nat :=
   | SIf c a b => assg_e c ++ flat_map assg_s a ++ flat_map assg_s b
   | SWhile c body => assg_e c ++ flat_map assg_s body
   | SFor lo hi body => assg_e lo ++ assg_e hi ++ flat_map assg_s body
-  | SBreak | SIterate => []
+  | SForIn _ l body => assg_e l ++ flat_map assg_s body
+  | SBreak | SIterate | SNever | SThrow _ => []
   | SExit c s' => assg_e c ++ assg_s s'
   | SExitV c e => assg_e c ++ assg_e e
+  | SError e => assg_e e
+  | STry body hs => flat_map assg_s body ++ flat_map (fun h => flat_map assg_s (snd h)) hs
+  end.
+
+(* does the program mention exceptions (then the header declares Ex0 .. Ex2) *)
+Fixpoint exn_e (e : expr) : bool :=
+  match e with
+  | ELit _ | EGlob _ | ELoc _ => false
+  | EPrim _ args | ECall _ args => existsb exn_e args
+  | EIf c a b => (exn_e c || exn_e a || exn_e b)%bool
+  | EAnd a b | EOr a b => (exn_e a || exn_e b)%bool
+  | ESeq ss e' => (existsb exn_s ss || exn_e e')%bool
+  | EMac _ e' => exn_e e'
+  | EListLit _ es => existsb exn_e es
+  end
+with exn_s (s : stmt) : bool :=
+  match s with
+  | SAssG _ e | SAssL _ e | SReturn e | SError e => exn_e e
+  | SPrint es | SCall _ es => existsb exn_e es
+  | SIf c a b => (exn_e c || existsb exn_s a || existsb exn_s b)%bool
+  | SWhile c body => (exn_e c || existsb exn_s body)%bool
+  | SFor lo hi body => (exn_e lo || exn_e hi || existsb exn_s body)%bool
+  | SForIn _ l body => (exn_e l || existsb exn_s body)%bool
+  | SBreak | SIterate | SNever => false
+  | SExit c s' => (exn_e c || exn_s s')%bool
+  | SExitV c e => (exn_e c || exn_e e)%bool
+  | SThrow _ | STry _ _ => true
+  end.
+Definition exn_item (it : item) : bool :=
+  match it with
+  | IConst _ e | IVar _ e => exn_e e
+  | IFun fd => (existsb (fun le => exn_e (snd le)) (fd_locals fd) || existsb exn_s (fd_body fd)
+                || exn_e (fd_result fd))%bool
+  | IStmt s => exn_s s
+  end.
+
+(* does the program use lists (then the header imports the four List domains) *)
+Definition is_list_ty (t : ty) : bool := match t with TList _ => true | _ => false end.
+Definition is_list_prim (p : prim) : bool :=
+  match p with
+  | PLCons _ | PLFirst _ | PLRest _ | PLLen _ | PLEmptyQ _ | PLRev _ | PLEq _ | PLNe _ | PLNth _ => true
+  | _ => false
+  end.
+Fixpoint lst_e (e : expr) : bool :=
+  match e with
+  | ELit _ | EGlob _ | ELoc _ => false
+  | EPrim p args => (is_list_prim p || existsb lst_e args)%bool
+  | ECall _ args => existsb lst_e args
+  | EIf c a b => (lst_e c || lst_e a || lst_e b)%bool
+  | EAnd a b | EOr a b => (lst_e a || lst_e b)%bool
+  | ESeq ss e' => (existsb lst_s ss || lst_e e')%bool
+  | EMac _ e' => lst_e e'
+  | EListLit _ _ => true
+  end
+with lst_s (s : stmt) : bool :=
+  match s with
+  | SAssG _ e | SAssL _ e | SReturn e | SError e => lst_e e
+  | SPrint es | SCall _ es => existsb lst_e es
+  | SIf c a b => (lst_e c || existsb lst_s a || existsb lst_s b)%bool
+  | SWhile c body => (lst_e c || existsb lst_s body)%bool
+  | SFor lo hi body => (lst_e lo || lst_e hi || existsb lst_s body)%bool
+  | SForIn _ _ _ => true
+  | SBreak | SIterate | SNever | SThrow _ => false
+  | SExit c s' => (lst_e c || lst_s s')%bool
+  | SExitV c e => (lst_e c || lst_e e)%bool
+  | STry body hs => (existsb lst_s body || existsb (fun h => existsb lst_s (snd h)) hs)%bool
+  end.
+Definition lst_item (it : item) : bool :=
+  match it with
+  | IConst t e | IVar t e => (is_list_ty t || lst_e e)%bool
+  | IFun fd => (existsb is_list_ty (fd_ret fd :: fd_params fd) || existsb (fun le => (is_list_ty (fst le) || lst_e (snd le))%bool) (fd_locals fd)
+                || existsb lst_s (fd_body fd) || lst_e (fd_result fd))%bool
+  | IStmt s => lst_s s
   end.
 
 Definition fun_assigned (fd : fundef) : list nat :=
@@ -156,49 +286,67 @@ Definition fun_assigned (fd : fundef) : list nat :=
     (flat_map (fun le => assg_e (snd le)) (fd_locals fd)
      ++ flat_map assg_s (fd_body fd) ++ assg_e (fd_result fd)).
 
-Fixpoint params_str (k : nat) (ts : list ty) : list string :=
+Fixpoint params_str (q : style) (k : nat) (ts : list ty) : list string :=
   match ts with
   | [] => []
-  | t :: r => ("p" ++ nat_str k ++ ": " ++ ty_str t) :: params_str (S k) r
+  | t :: r => ("p" ++ nat_str k ++ ": " ++ ty_str q t) :: params_str q (S k) r
   end.
 
-Fixpoint locals_str (np k : nat) (ls : list (ty * expr)) : string :=
+Fixpoint locals_str (q : style) (np k : nat) (ls : list (ty * expr)) : string :=
   match ls with
   | [] => ""
   | (t, e) :: r =>
-      ind 1 ++ loc_str np k ++ ": " ++ ty_str t ++ " := " ++ pe np k 1 e ++ ";" ++ nl
-      ++ locals_str np (S k) r
+      ind 1 ++ loc_str np k ++ ": " ++ ty_str q t ++ " := " ++ pe q np k 1 e ++ ";" ++ nl
+      ++ locals_str q np (S k) r
   end.
 
-Definition fun_src (fd : fundef) : string :=
+Definition fun_src (q : style) (fd : fundef) : string :=
   let np := List.length (fd_params fd) in
   let d := (np + List.length (fd_locals fd))%nat in
-  fun_str (fd_name fd) ++ "(" ++ sep_by ", " (params_str 0 (fd_params fd)) ++ "): "
-  ++ ty_str (fd_ret fd) ++ " == {" ++ nl
+  fun_str (fd_name fd) ++ "(" ++ sep_by ", " (params_str q 0 (fd_params fd)) ++ "): "
+  ++ ty_str q (fd_ret fd) ++ " == {" ++ nl
   ++ String.concat "" (map (fun k => ind 1 ++ "free " ++ glob_str k ++ ";" ++ nl) (fun_assigned fd))
-  ++ locals_str np np (fd_locals fd)
-  ++ lines (ps1 np d 1) 1 (fd_body fd)
-  ++ ind 1 ++ pe np d 1 (fd_result fd) ++ nl ++ "}" ++ nl.
+  ++ locals_str q np np (fd_locals fd)
+  ++ lines (ps1 q false np d 1) 1 (fd_body fd)
+  ++ ind 1 ++ pe q np d 1 (fd_result fd) ++ nl ++ "}" ++ nl.
 
 (* source text of one top-level form; k = index of the global it declares (if any) *)
-Definition item_src (k : nat) (it : item) : string :=
+Definition item_src (q : style) (k : nat) (it : item) : string :=
   match it with
-  | IConst t e => glob_str k ++ ": " ++ ty_str t ++ " == " ++ pe 0 0 0 e ++ ";" ++ nl
-  | IVar t e => glob_str k ++ ": " ++ ty_str t ++ " := " ++ pe 0 0 0 e ++ ";" ++ nl
-  | IFun fd => fun_src fd
-  | IStmt s => ps1 0 0 0 s ++ ";" ++ nl
+  | IConst t e => glob_str k ++ ": " ++ ty_str q t ++ " == " ++ pe q 0 0 0 e ++ ";" ++ nl
+  | IVar t e => glob_str k ++ ": " ++ ty_str q t ++ " := " ++ pe q 0 0 0 e ++ ";" ++ nl
+  | IFun fd => fun_src q fd
+  | IStmt s => ps1 q false 0 0 0 s ++ ";" ++ nl
   end.
 
-Fixpoint items_src (k : nat) (p : prog) : list string :=
+Fixpoint items_src (q : style) (k : nat) (p : prog) : list string :=
   match p with
   | [] => []
   | it :: r =>
-      item_src k it :: items_src (match it with IConst _ _ | IVar _ _ => S k | _ => k end) r
+      item_src q k it :: items_src q (match it with IConst _ _ | IVar _ _ => S k | _ => k end) r
   end.
 
-Definition header : string :=
+Definition exn_decls : string :=
+  String.concat ""
+    (map (fun k => "define " ++ exn_str k ++ "Type: Category == with;" ++ nl
+                   ++ exn_str k ++ ": " ++ exn_str k ++ "Type == add;" ++ nl) (seq 0 n_exn)).
+
+Definition header (q : style) : string :=
   "#include " ++ quote ++ "aldor" ++ quote ++ nl ++
   "#include " ++ quote ++ "aldorio" ++ quote ++ nl ++
-  "import from MachineInteger, Integer;" ++ nl.
+  "import from MachineInteger, Integer;" ++ nl ++
+  (if st_mac q then "MI ==> MachineInteger;" ++ nl ++ "macro BI == Integer;" ++ nl else "") ++
+  "DBL(x) ==> ((x) + (x));" ++ nl ++ "macro SQR(x) == ((x) * (x));" ++ nl ++
+  (if st_qual q then "" else
+     "mi(x: " ++ ty_str q TMI ++ "): " ++ ty_str q TMI ++ " == x;" ++ nl ++
+     "bi(x: " ++ ty_str q TInt ++ "): " ++ ty_str q TInt ++ " == x;" ++ nl).
 
-Definition render (p : prog) : string := header ++ String.concat "" (items_src 0 p).
+(* header of a given program: the exception declarations only when it uses exceptions *)
+Definition header_of (q : style) (p : prog) : string :=
+  header q
+  ++ (if existsb lst_item p
+      then "import from List(" ++ bty_str q BMI ++ "), List(" ++ bty_str q BInt ++ "), List(Boolean), List(String);" ++ nl
+      else "")
+  ++ (if existsb exn_item p then exn_decls else "").
+
+Definition render (q : style) (p : prog) : string := header_of q p ++ String.concat "" (items_src q 0 p).
